@@ -8,6 +8,7 @@ import PyTough.Proofs.T2DataGener
 import PyTough.Proofs.T2DataParam
 import PyTough.Proofs.T2DataRocks
 import PyTough.Proofs.T2DataParamSection
+import PyTough.Proofs.T2DataShort
 namespace Proofs.T2
 open Py Model Model.T2 Proofs Proofs.Incon
 open Gen.Sections (Rec)
@@ -27,7 +28,7 @@ def mainChunks : List (Str × Nat) :=
   [(c!"timestep", 8), (c!"default_incons", 4), (c!"output_times2", 8),
    (c!"generation_times", 4), (c!"generation_rates", 4), (c!"generation_enthalpy", 4),
    (c!"selec2", 8), (c!"radii2", 8), (c!"layer2", 8), (c!"xyz3", 8), (c!"part2", 8),
-   (c!"incon2", 4), (c!"indom2", 4), (c!"diffusion", 8)]
+   (c!"incon2", 4), (c!"indom2", 4), (c!"diffusion", 8), (c!"selec1", 16)]
 
 def xpChunks : List (Str × Nat) :=
   [(c!"generation_times", 4), (c!"generation_rates", 4), (c!"generation_enthalpy", 4)]
@@ -151,6 +152,42 @@ theorem param_recs (d : T2Data) :
   cases d.autough2 <;>
     exact ⟨by decide +kernel, recWFb_spec (by decide +kernel), by decide +kernel, recWFb_spec (by decide +kernel),
            by decide +kernel, recWFb_spec (by decide +kernel)⟩
+
+theorem momop_shape : mainTabs.get c!"_more_option_str" = .ok (recOf mainTabs c!"_more_option_str") ∧
+    (recOf mainTabs c!"_more_option_str").names = [c!"_more_option_str"] ∧
+    (recOf mainTabs c!"_more_option_str").fs = [fieldAt mainTabs c!"_more_option_str" 0] ∧
+    (fieldAt mainTabs c!"_more_option_str" 0).typ = 's' ∧ (fieldAt mainTabs c!"_more_option_str" 0).prec = none ∧
+    (fieldAt mainTabs c!"_more_option_str" 0).width = 21 := by
+  refine ⟨?_, ?_, ?_, ?_, ?_, ?_⟩ <;> decide +kernel
+
+theorem short_shape : ShortShape mainTabs (recOf mainTabs c!"short") (fieldAt mainTabs c!"short" 0) (fieldAt mainTabs c!"short" 1) :=
+  ⟨by decide +kernel, by decide +kernel, by decide +kernel, by decide +kernel, by decide +kernel, by decide +kernel⟩
+
+theorem mesh_shapes : MeshShapes mainTabs
+    (recOf mainTabs c!"radii1") (recOf mainTabs c!"radii2") (recOf mainTabs c!"equid") (recOf mainTabs c!"logar")
+    (recOf mainTabs c!"layer1") (recOf mainTabs c!"layer2") (recOf mainTabs c!"xyz1") (recOf mainTabs c!"xyz2")
+    (recOf mainTabs c!"xyz3") (recOf mainTabs c!"minc") (recOf mainTabs c!"part1") (recOf mainTabs c!"part2")
+    (fieldAt mainTabs c!"radii1" 0) (fieldAt mainTabs c!"radii2" 0) (fieldAt mainTabs c!"layer1" 0) (fieldAt mainTabs c!"layer2" 0)
+    (fieldAt mainTabs c!"xyz1" 0) (fieldAt mainTabs c!"xyz2" 0) (fieldAt mainTabs c!"xyz2" 1) (fieldAt mainTabs c!"xyz2" 2)
+    (fieldAt mainTabs c!"xyz2" 3) (fieldAt mainTabs c!"xyz3" 0)
+    (fieldAt mainTabs c!"minc" 0) (fieldAt mainTabs c!"minc" 1) (fieldAt mainTabs c!"minc" 2) (fieldAt mainTabs c!"minc" 3)
+    (fieldAt mainTabs c!"part1" 0) (fieldAt mainTabs c!"part1" 1) (fieldAt mainTabs c!"part1" 2) (fieldAt mainTabs c!"part1" 3)
+    (fieldAt mainTabs c!"part2" 0) := by
+  have r2 := chunkRec_of mainTabs c!"radii2" 8 (main_chunks_ok _ (by decide))
+  have l2 := chunkRec_of mainTabs c!"layer2" 8 (main_chunks_ok _ (by decide))
+  have x3 := chunkRec_of mainTabs c!"xyz3" 8 (main_chunks_ok _ (by decide))
+  have p2 := chunkRec_of mainTabs c!"part2" 8 (main_chunks_ok _ (by decide))
+  exact
+    { rz := ⟨by decide +kernel, r2.1, by decide +kernel, by decide +kernel, by decide +kernel, l2.1, by decide +kernel,
+             by decide +kernel, r2.2, recWFb_spec (by decide +kernel), recWFb_spec (by decide +kernel), by decide +kernel,
+             by decide +kernel, l2.2⟩,
+      xyz := ⟨by decide +kernel, by decide +kernel, x3.1, by decide +kernel, by decide +kernel, by decide +kernel,
+              by decide +kernel, ⟨by decide +kernel, by decide +kernel⟩, by decide +kernel, by decide +kernel,
+              by decide +kernel, x3.2⟩,
+      minc := ⟨by decide +kernel, by decide +kernel, p2.1, by decide +kernel, ⟨by decide +kernel, by decide +kernel⟩,
+               ⟨by decide +kernel, by decide +kernel⟩, ⟨by decide +kernel, by decide +kernel⟩, by decide +kernel,
+               by decide +kernel, by decide +kernel, by decide +kernel, by decide +kernel, by decide +kernel,
+               by decide +kernel, by decide +kernel, ⟨by decide +kernel, by decide +kernel⟩, by decide +kernel, p2.2⟩ }
 
 /-! ### keyword → reader / writer dispatch as it is in /repo -/
 
